@@ -45,6 +45,13 @@ CHECKS = {
          "operation); TLC generates every 2-step pipeline over 49 operation instances plus randomised 6-10 step pipelines, the executor runs them on the real "
          "library with a node-handle write after every step, and Trace_TreeOps validates the projected heap (topologies, content digests, numpy.shares_memory classes) after every step",
     design="4/C03", technique="TLA+ heap specification + TLC-generated operation pipelines replayed into the code + TLC trace validation of the observed heap after every step"),
+ "C09": dict(
+    text="Views.tla models trees, node/slice/path/branch/segment views, detached copies and tree copies as a state machine whose actions are values; what a view "
+         "reports is defined as the owner's current columns at its indices. TLC explores every history of view/write/copy/detach operations up to the bound "
+         "(design properties: detached copies frozen, writes local to the owner) and the same exploration generates the histories; the executor performs each "
+         "history on real objects, reads back every live tree and view completely after every step (values, ids, negative indexing, slices, segments, adjacency) "
+         "and Trace_Views compares with the specification state step by step",
+    design="4/C09", technique="TLA+ state machine (Views.tla) explored exhaustively by TLC; generated histories replayed into the code; TLC trace validation of full read-backs after every step"),
 }
 
 NA_REASON = {}
